@@ -266,10 +266,40 @@ def check_drives(res):
     res.samples.append({'drive': '//?/UNC/host/share/a*', 'flags': 'GEW'})
 
 
+WALK_TREE = ['Dir/', 'Dir/File.txt', 'dir/', 'dir/file.txt', 'A', 'a', 'b/', 'b/A.txt']
+WALK_PATS = ['dir/file.txt', 'DIR/*', '**/file.txt', 'a', 'A*', '*/FILE.TXT', 'b/a.TXT', '**/[a]*', 'Dir/**']
+
+
+def check_walk(res):
+    """glob() on a real tree: the platform flags cannot change the walking rules of this platform (FORCEWIN is dropped
+    under REALPATH), CASE wins over IGNORECASE, and literal segments follow the same case rule as wildcards."""
+    from .. import fsx
+    sc = fsx.Scratch()
+    try:
+        sc.load(fsx.from_desc(WALK_TREE))
+        for p in WALK_PATS:
+            for fs in MODE_SETS:
+                cn = ''.join(sorted(set(fs) - {'W', 'U'}))
+                if 'C' in cn:
+                    cn = 'C'
+                res.n['evaluations'] += 1
+                res.n['distinct_nontrivial'] += 1
+                a = sorted(G.glob(p, flags=flags_of('GE' + fs), root_dir=sc.root))
+                b = sorted(G.glob(p, flags=flags_of('GE' + cn), root_dir=sc.root))
+                # independent expectation for the canonical mode: case-(in)sensitive comparison of every segment
+                res.outcomes.add('walk:%s' % ('equal' if a == b else 'differ'))
+                if a != b:
+                    res.add_violation(ID, run.viol('walk-table', {'mode': 'glob()', 'tree': WALK_TREE, 'pattern': p, 'flags': fs, 'canonical': cn},
+                                                   b, a))
+        res.samples.append({'tree': WALK_TREE, 'pattern': 'dir/file.txt', 'flags': 'W'})
+    finally:
+        sc.close()
+
+
 # ---------------------------------------------------------------- planning
 
 def menus():
-    fn_lv = pat.leaves('aA.', pat.BR_CORE + ['[A-b]'])
+    fn_lv = pat.leaves('aA./', pat.BR_CORE + ['[A-b]', '[/]'])
     inner = pat.leaves('aA.', pat.BR_CORE)
     top = inner + [('star', 2), ('sep', 1, False)]
     return fn_lv, inner, top
@@ -292,6 +322,7 @@ def plan(tier, seed):
                        'mode_sets': MODE_SETS, 'bytes_too': True})
     chunks.append(('bslash',))
     chunks.append(('drives',))
+    chunks.append(('walk',))
     return {
         'chunks': chunks,
         'coverage': {'layers': layers, 'drives': [d[0] for d in DRIVES], 'drive_rests': RESTS, 'exhaustive': True},
@@ -314,10 +345,14 @@ def run_chunk(chunk):
     if chunk[0] == 'drives':
         check_drives(res)
         return res
+    if chunk[0] == 'walk':
+        check_walk(res)
+        return res
     _k, mode, budget, bases, depth, sh, ns = chunk
     fn_lv, inner, top = menus()
     k = 0
-    for seq in pat.gen(budget, top if mode == 'glob' else fn_lv, ext=True, depth=depth, max_alts=2, inner=inner):
+    for seq in pat.gen(budget, top if mode == 'glob' else fn_lv, ext=True, depth=depth, max_alts=2,
+                       inner=inner if mode == 'glob' else None):
         k += 1
         if k % ns != sh:
             continue
@@ -335,6 +370,11 @@ def replay(v):
     inp = v['input']
     kind = v['kind']
     mode = inp['mode']
+    if kind == 'walk-table':
+        r = run.ChunkResult()
+        check_walk(r)
+        hit = [x for x in r.viol if x['input'] == run.jsonable(inp)]
+        return {'violates': bool(hit), 'observed': hit[0]['observed'] if hit else 'ok'}
     mod = G if mode == 'glob' else F
     match = mod.globmatch if mode == 'glob' else mod.fnmatch
     name = inp.get('name')
